@@ -211,6 +211,16 @@ def run(ctx):
                                          "impl": [show(x) for x in ot]})
     dist.setdefault("hops_with_other_precision_than_model", 0)
     stream_short(ctx, res)
+    # the string-level MicroDVD writer model (request 803) against the real writer, on the generated single-language sets
+    mw = [(langs[0][0], langs[0][1]) for (chain, langs, li, cues, texts, t1, t2) in work if len(langs) == 1 and 4 in chain][:400]
+    docs = oracle_batch([(803, [[c[0], c[1], tx] for c, tx in zip(cu, txs)]) for (cu, txs) in mw]) if mw else []
+    ndiff = 0
+    for (cu, txs), d in zip(mw, docs):
+        real = impl.call(lambda: MicroDVDWriter().write(build([(cu, txs)])))
+        if not (isinstance(real, Ok) and real.v == d):
+            ndiff += 1
+    dist["mdvd_documents_compared_with_writer_model"] = len(mw)
+    dist["mdvd_documents_differing_from_writer_model"] = ndiff
     dist["chain_length_histogram"] = lens
     dist["pairs"] = len(pairs)
     dist["sets_per_pair"] = per_pair
@@ -225,7 +235,9 @@ def run(ctx):
                     "closed form (coarsest unit, SAMI 4 s tail), chain twice = once",
                     "token level: writer model then reader model = floor to the format's unit (SRT, WebVTT, DFXP, MicroDVD)",
                     "cue-list level incl. SRT merge loop and SAMI sync rule + back-filling: a model hop is pi_F on the "
-                    "domain; a chain of model hops is the closed form and satisfies the oracle"],
+                    "domain; a chain of model hops is the closed form and satisfies the oracle",
+                    "string level, MicroDVD: reader model o writer model (whole documents incl. text lines) = frames "
+                    "floored, text unchanged (C08_mdvd_roundtrip_string)"],
         "correspondence_only": ["text survives every hop (whitespace-normalised lines; texts restricted to plain words: "
                                 "no consecutive breaks, no entity-looking text, no wrapped text, no '|')",
                                 "document level of every real writer / reader pair (the model hop is at token / cue-list "
